@@ -4,7 +4,7 @@ import re
 import guards
 
 from mirlib import AnchorMissing, op_place, path_matches, is_bare, place_projs
-from helpers import (branches_on_call, enum_switches, edge_region, eq_branches, must_pass, origin_calls, ungated_reach, chain,
+from helpers import (branches_on_call, closure_of_arg, comes_from_call, enum_switches, edge_region, eq_branches, must_pass, origin_calls, ungated_reach, chain,
                      aggregates, field_accesses, loop_of, vexpr, bool_branches)
 
 EXPLANATION = (
@@ -298,6 +298,20 @@ def r_detect_roots(r, prog):
     r.floor(4)
 
 
+def _stack_scan_any(prog, f):
+    """Second idiom of the on-stack test: `self.dependency_stack.iter().any(|(id, _)| id == &candidate_id)` branched on directly. Returns
+    eq_branches-like entries (bb, call, equal = the edge taken when the candidate is on the stack, differ, scan=True)."""
+    out = []
+    for b in branches_on_call(f, lambda c: c.name() == 'any' and vexpr(f, c.args[0]) in ('iter(arg1.dependency_stack)', 'into_iter(arg1.dependency_stack)')):
+        c = b['call']
+        g = closure_of_arg(prog, f, c.args[1])
+        if g is None or 'module_scoped_identifier' not in vexpr(f, c.args[1]):
+            continue
+        if vexpr(g, {'cp': {'l': 0}}, depth=6) in ('eq(arg2.0,arg1.0)', 'eq(arg1.0,arg2.0)'):
+            out.append({'bb': b['bb'], 'call': c, 'equal': b['true'], 'differ': b['false'], 'scan': True})
+    return out
+
+
 def r_recursion_guard(r, prog):
     f = prog.fn(CD + "CycleDetector::<'a>::push_to_stack_and_check")
     rec = [c for c in f.calls() if path_matches(c.callee, 'CycleCandidate::check_for_cycles')]
@@ -308,6 +322,7 @@ def r_recursion_guard(r, prog):
     from_field = lambda op, fld: any(('.' + fld) in t[2] for t in f.origin(op, wide=True) if t[0] in ('arg', 'call', 'rv', 'agg'))
     g1 = [e for e in eqs if any(cand_id(a) for a in e['call'].args) and any(from_field(a, 'type_being_checked') for a in e['call'].args)]
     g2 = [e for e in eqs if any(cand_id(a) for a in e['call'].args) and any(from_field(a, 'dependency_stack') for a in e['call'].args)]
+    g2 += _stack_scan_any(prog, f)
     for c in rec:
         # guard 1: equal to the type being checked -> never recurse
         if g1 and all(c.bb not in f.reachable(e['equal']) or f.edge_dominates(e['bb'], e['differ'], c.bb) for e in g1) and \
@@ -319,6 +334,11 @@ def r_recursion_guard(r, prog):
         # guard 2: membership scan of the dependency stack, with an equal-edge that returns
         ok2 = False
         for e in g2:
+            if e.get('scan'):
+                # `any` walks the whole stack unless it finds a match: the recursion must be off its true edge
+                if f.dominates(e['bb'], c.bb) and c.bb not in f.reachable(e['equal']):
+                    ok2 = True
+                continue
             lp = loop_of(f, e['bb'])
             if lp is None:
                 continue
@@ -580,7 +600,15 @@ def r_search_state_and_identity(r, prog):
     rc = prog.fn(CDT + 'report_cycle_error')
     ins = [c for c in rc.calls() if c.name() == 'insert' and 'reported_cycles' in vexpr(rc, c.args[0]) and not rc.blocks[c.bb].get('cleanup')]
     cl = [f for f in prog.fns.values() if f.path.startswith(rc.path + '::{closure')]
-    keycl = [f for f in cl if f.local_ty(0) == 'alloc::string::String']
+    # the closure that maps a stack entry to its part of the cycle's identity: the one handed to the map() whose collected result is inserted
+    keycl = []
+    for ic in ins:
+        for m in rc.calls():
+            if m.name() == 'map' and not rc.blocks[m.bb].get('cleanup'):
+                col = [c for c in rc.calls() if c.name() == 'collect' and comes_from_call(rc, c.args[0], m) and comes_from_call(rc, ic.args[1], c)]
+                g = closure_of_arg(prog, rc, m.args[1]) if col else None
+                if g is not None:
+                    keycl.append(g)
     pushes = []
     for f in prog.fns.values():
         if f.path.startswith(CDT):
@@ -632,7 +660,7 @@ def r_dead_ends(r, prog):
         names = [x.get('n') for x in lhs.get('p', []) if isinstance(x, dict) and 'f' in x]
         if names == ['search_events'] and not f.blocks[bb].get('cleanup'):
             bumps.append(bb)
-    eqs = eq_branches(f)
+    eqs = eq_branches(f) + _stack_scan_any(prog, f)
     eq_edges = [(e['bb'], e['equal']) for e in eqs]
     covered = [e for e in eq_edges if any(f.edge_dominates(e[0], e[1], b) for b in bumps)]
     if len(bumps) >= 2 and len(covered) >= 2:
